@@ -267,7 +267,7 @@ def rule_h1_h2(ck, prog):
                                       ("write position stays inside the heap (wr < size) on exit", exit_wr)])
     an.symbolic_bases = False
     sites = an.run()
-    n = report_sites(ck, "C20-H1", f, an, sites, ("store", "call", "load"))
+    n = report_sites(ck, "C20-H1", f, an, sites, ("store", "call", "load", "arith"))
     for key, s in sites.items():
         if s.kind == "exit":
             v, r = s.verdict()
